@@ -73,7 +73,10 @@ func AuthFirstPacket(firstPacket []byte, transport Transport, sta *State) (info 
 		return
 	}
 
-	if sta.registerRandom(fragments.randPubKey) {
+	// X25519 ignores the top bit of the public key (RFC 7748), so it must not distinguish replay-cache entries
+	cacheKey := fragments.randPubKey
+	cacheKey[31] &= 0x7f
+	if sta.registerRandom(cacheKey) {
 		err = ErrReplay
 		return
 	}
